@@ -192,9 +192,44 @@ def out_code(o, pid):
         return ["X", "RRaw", True, True]
     if t == "Val":
         return ["X", "RVal", True, True]
+    if t == "TimeoutExpired":
+        name = o["a"][1]
+        return ["X", "RTimeout", o["a"][0] == pid, name is not None and bytes.fromhex(name["b"]) == b"nm"]
     if t == "NotFired":
         return ["NotFired"]
     return ["Other"]
+
+
+PAIRS = {"windows": [("memory_info", "proc_memory_info", "proc_info"), ("memory_full_info", "proc_memory_info", "proc_info"),
+                     ("create_time", "proc_times", "proc_info"), ("cpu_times", "proc_times", "proc_info"),
+                     ("io_counters", "proc_io_counters", "proc_info"), ("num_handles", "proc_num_handles", "proc_info"),
+                     ("cmdline", "proc_cmdline[peb]", "proc_cmdline[nopeb]")],
+         "sunos": [("uids", "proc_cred", "proc_basic_info"), ("gids", "proc_cred", "proc_basic_info")]}
+RETRY = [("cmdline", "proc_cmdline"), ("environ", "proc_environ"), ("cwd", "proc_cwd")]
+RETRY_K = [1, 32, 33]
+ERR_ORDER = ["ESRCH", "ENOENT", "EPERM", "EACCES", "EIO", "EINVAL", "WACCESS", "WPRIV", "WPARTIAL", "WINVAL"]
+
+
+def pair_cond_list(plat):
+    """Same order as Spec.pair_conds."""
+    es = [e for e in ERR_ORDER if e in errs_of(plat)]
+    return [(e1, e2, st, z) for e1 in es for e2 in es for st in STATES for z in (False, True)]
+
+
+def pair_outcome(layer, meth, s1, s2, e1, e2, state, pid):
+    kind, r = layer.run(meth, pid=pid, state=state, faults={s1: [(None, e1)], s2: [(None, e2)]})
+    return S.classify(layer, kind, r)
+
+
+def retry_outcome(layer, meth, site, k, then, state="alive", pid=7):
+    kind, r = layer.run(meth, pid=pid, state=state, faults={site: [(k, "WPARTIAL"), (None, then)]})
+    return S.classify(layer, kind, r)
+
+
+def wait_outcome(layer, scen, state, pid=7):
+    faults = {} if scen == "WPlain" else {"proc_wait": [(None, {"WNativeTimeout": "WTIMEOUT", "WAbandoned": "WABANDONED"}[scen])]}
+    kind, r = layer.run("wait", pid=pid, state=state, faults=faults)
+    return S.classify(layer, kind, r, need_fired=False)
 
 
 NIC_PROBES = [
@@ -237,7 +272,7 @@ def run_nic(fe, fam, addr, mask, bcast):
 
 def probe_all(impl_dir, workdir):
     out = {"slot_maps": [], "usage": [], "ladder": [], "sites": {}, "names": [], "nic": [], "methods": {},
-           "status": [], "sladder": []}
+           "status": [], "sladder": [], "pairs": [], "retry": [], "wait": []}
     for plat in S.PLATS:
         layer = S.Layer(plat, impl_dir)
         for m in MAPS[plat]:
@@ -270,6 +305,21 @@ def probe_all(impl_dir, workdir):
                 for code, _text in codes:
                     so = [out_code(ladder_outcome(layer, meth, site, "ESRCH", "code:" + code, pid), pid) for pid in (7, 0)]
                     out["sladder"].append({"plat": plat, "meth": meth, "site": site, "code": code, "outs": so})
+        for meth, s1, s2 in PAIRS.get(plat, []):
+            outs = [out_code(pair_outcome(layer, meth, s1, s2, e1, e2, st, 0 if z else 7), 0 if z else 7)
+                    for (e1, e2, st, z) in pair_cond_list(plat)]
+            out["pairs"].append({"plat": plat, "meth": meth, "site1": s1, "site2": s2, "outs": outs})
+        if plat == "windows":
+            for meth, site in RETRY + [("exe", "proc_exe")]:
+                for k in RETRY_K:
+                    for then in [None] + [e for e in errs_of(plat) if e != "WPARTIAL"]:
+                        out["retry"].append({"meth": meth, "site": site, "k": k, "then": then,
+                                             "out": out_code(retry_outcome(layer, meth, site, k, then), 7)})
+        for st in STATES:
+            out["wait"].append({"plat": plat, "scen": "WPlain", "state": st, "out": out_code(wait_outcome(layer, "WPlain", st), 7)})
+            if plat == "windows":
+                for scen in ("WNativeTimeout", "WAbandoned"):
+                    out["wait"].append({"plat": plat, "scen": scen, "state": st, "out": out_code(wait_outcome(layer, scen, st), 7)})
         fe = S.load_frontend(plat, impl_dir, workdir)
         pkg = fe.mod
         out["names"].append({"plat": plat, "all": sorted(set(pkg.__all__)),
@@ -365,6 +415,20 @@ def emit_coq(data):
     L.append("Definition status_blocks : list sblock := [")
     L.append(";\n".join("  Build_sblock %s %s %s %s [%s]" % (COQ_PLAT[b["plat"]], qs(b["meth"]), qs(b["site"]), qs(b["code"]),
                                                               _outs_coq(b["outs"])) for b in data["sladder"]))
+    L.append("].\n")
+    st_coq = {"alive": "Alive", "zombie": "Zombie", "gone": "Gone"}
+    L.append("Definition pair_blocks : list pblock := [")
+    L.append(";\n".join("  Build_pblock %s %s %s %s [%s]" % (COQ_PLAT[b["plat"]], qs(b["meth"]), qs(b["site1"]), qs(b["site2"]),
+                                                              _outs_coq(b["outs"])) for b in data["pairs"]))
+    L.append("].\n")
+    L.append("Definition retry_rows : list rrow := [")
+    L.append(";\n".join("  Build_rrow %s %s %d %s (%s)" % (qs(r["meth"]), qs(r["site"]), r["k"],
+                                                            "None" if r["then"] is None else "(Some %s)" % r["then"],
+                                                            _outs_coq([r["out"]])) for r in data["retry"]))
+    L.append("].\n")
+    L.append("Definition wait_rows : list wrow := [")
+    L.append(";\n".join("  Build_wrow %s %s %s (%s)" % (COQ_PLAT[r["plat"]], r["scen"], st_coq[r["state"]], _outs_coq([r["out"]]))
+                        for r in data["wait"]))
     L.append("].\n")
     L.append("Definition names_rows : list names := [")
     L.append(";\n".join("  Build_names %s [%s] [%s] [%s]" % (
